@@ -80,20 +80,17 @@ theorem candidate_consumes (sorted : List Row) (hk : kanaColumnsOk sorted = true
         obtain ⟨m, hm⟩ : ∃ m, row.1.length = m + 1 := ⟨row.1.length - 1, by omega⟩
         rw [hm, List.take_succ_cons]; simp
     exact hcol s hcond.2 x this
-  · unfold expandUnit at he
-    split at he
-    · next hcond =>
-      simp only [Option.some.injEq] at he; subst he
-      obtain ⟨pre, h1, h2, h3⟩ := stripSokuons_spec s
-      intro x hx
-      simp only at hx
-      generalize hn : (stripSokuons s).1 = n at hx h2
-      generalize hrr : (stripSokuons s).2 = r at h1 hcond
-      rw [h1, ← h2, Nat.add_comm, List.take_length_add_append] at hx
-      rcases List.mem_append.1 hx with hx | hx
-      · exact sokuon_not_alnum x (h3 x hx)
-      · exact hcol _ hcond x hx
-    · cases he
+  · obtain ⟨hcond, he⟩ := expandUnit_some row s c he
+    subst he
+    obtain ⟨pre, h1, h2, h3⟩ := stripSokuons_spec s
+    intro x hx
+    simp only at hx
+    generalize hn : (stripSokuons s).1 = n at hx h2
+    generalize hrr : (stripSokuons s).2 = r at h1 hcond
+    rw [h1, ← h2, Nat.add_comm, List.take_length_add_append] at hx
+    rcases List.mem_append.1 hx with hx | hx
+    · exact sokuon_not_alnum x (h3 x hx)
+    · exact hcol _ hcond x hx
 
 /-- The ASCII letters and digits of a string, lower-cased, in order. -/
 def asciiPart (s : Str) : Str := (s.filter asciiAlnum).map lower
